@@ -9,7 +9,6 @@ import (
 	"bytes"
 	"crypto/ed25519"
 	"crypto/rand"
-	"encoding/json"
 	"errors"
 	"fmt"
 	"io"
@@ -38,25 +37,7 @@ type evT struct {
 type pktT struct {
 	T string `json:"t"`
 	A string `json:"a"`
-}
-
-// UnmarshalJSON: the attribute is a string or (pong ids) a number.
-func (p *pktT) UnmarshalJSON(b []byte) error {
-	var raw struct {
-		T string          `json:"t"`
-		A json.RawMessage `json:"a"`
-	}
-	if err := json.Unmarshal(b, &raw); err != nil {
-		return err
-	}
-	p.T = raw.T
-	var s string
-	if json.Unmarshal(raw.A, &s) == nil {
-		p.A = s
-	} else {
-		p.A = strings.TrimSpace(string(raw.A))
-	}
-	return nil
+	I int    `json:"i"` // PONG: the number of the PING it answers
 }
 
 type cfgT struct {
@@ -293,8 +274,10 @@ func (w *world) perform(e evT) error {
 	case "disc":
 		p.writePacket(cat([]byte{mDisconnect}, u32(uint32(e.N)), sshStr(discMessage(e.N)), sshStr("")))
 	case "kexinit":
+		// ext-info-c in EVERY KEXINIT of a client peer that offers it (RFC 8308 wants it in the first one only; the
+		// server must not answer a later one with another EXT_INFO); kex-strict in the first one only
 		first := p.kexes == 0 && p.myInit == nil
-		p.sendKexInit(first && w.cfg.Xc && !p.isServer, first && w.cfg.Sp)
+		p.sendKexInit(w.cfg.Xc && !p.isServer, first && w.cfg.Sp)
 	case "kexmsg":
 		if p.isServer {
 			return p.serverReply(p.vC, p.vS)
@@ -504,12 +487,12 @@ func (w *world) abstract(pl []byte) pktT {
 		if len(r) != 0 || !strings.HasPrefix(s, "p") || !strings.Contains(s, ";") {
 			return pktT{T: "pong", A: "garbled"}
 		}
-		id := s[1:strings.Index(s, ";")]
+		id, err := strconv.Atoi(s[1:strings.Index(s, ";")])
 		rest := s[strings.Index(s, ";")+1:]
-		if rest != "" && (len(rest) != bigPayload || strings.Trim(rest, ".") != "") {
-			return pktT{T: "pong", A: "garbled-" + id}
+		if err != nil || (rest != "" && (len(rest) != bigPayload || strings.Trim(rest, ".") != "")) {
+			return pktT{T: "pong", A: "garbled", I: id}
 		}
-		return pktT{T: "pong", A: id}
+		return pktT{T: "pong", I: id}
 	case mDisconnect:
 		if len(pl) >= 5 {
 			return pktT{T: "disconnect", A: strconv.Itoa(int(uint32(pl[1])<<24 | uint32(pl[2])<<16 | uint32(pl[3])<<8 | uint32(pl[4])))}
